@@ -34,6 +34,8 @@ def programs(spec, mode):
         combos = []
         for kind in kinds:
             for t in proggen.all_templates(kind, mode):
+                if spec.get("surrounds") and t[5] not in spec["surrounds"]:
+                    continue
                 combos.append((kind, t))
         random.Random(seed).shuffle(combos)
         for kind, t in combos[spec["start"]: spec["start"] + spec["count"]]:
